@@ -125,12 +125,44 @@ func step(w []string, line string) string {
 			if w[8] == "1" {
 				b.Svc.VerifBan(keyStr, true)
 			}
-			ch := security.ParseChannel(append([]byte(keyStr+"/"), vlib.UnHex(w[9])...))
+			presented := keyStr
+			if len(w) > 11 && strings.HasPrefix(w[11], "mangle=") {
+				// the client presents a string derived from the issued key: app:<hex> appends characters,
+				// trunc:<n> drops the last n, pre:<hex> prepends
+				m := strings.SplitN(strings.TrimPrefix(w[11], "mangle="), ":", 2)
+				switch m[0] {
+				case "app":
+					presented = keyStr + string(vlib.UnHex(m[1]))
+				case "pre":
+					presented = string(vlib.UnHex(m[1])) + keyStr
+				case "trunc":
+					presented = keyStr[:len(keyStr)-int(u(m[1]))]
+				}
+				newLine = strings.Join(w[:12], " ") + fmt.Sprintf(" now=%d", now)
+			}
+			ch := security.ParseChannel(append([]byte(presented+"/"), vlib.UnHex(w[9])...))
 			res := b.Svc.VerifAuthorize(ch, uint8(u(w[10])))
 			if w[8] == "1" {
 				b.Svc.VerifBan(keyStr, false)
 			}
 			return newLine + "\x00" + strconv.FormatBool(res)
+		case "extend":
+			// extend salt master contract sign perms target expires channel connid access : keygen.ExtendKey
+			// with that key (private link); whatever it answers, the parent key string must keep authorizing
+			// exactly what it did before (the following authz lines present the same string again)
+			k, ok := mkKey(w[1:8])
+			xl := strings.Join(w[:11], " ") + fmt.Sprintf(" now=%d", time.Now().Unix()) + "\x00"
+			if !ok {
+				return xl + "bad-target"
+			}
+			keyStr, err := b.Cipher.EncryptKey(k)
+			if err != nil {
+				return xl + "encrypt-err"
+			}
+			if _, kerr := b.Svc.VerifKeygen().ExtendKey(keyStr, string(vlib.UnHex(w[8])), string(vlib.UnHex(w[9])), uint8(u(w[10])), time.Unix(0, 0)); kerr != nil {
+				return xl + "refused"
+			}
+			return xl + "extended"
 		}
 		return "bad-op"
 	})
